@@ -98,7 +98,8 @@ def gen_case(rng, tier, index):
                             "name": rng.choice(NAMES),
                             "access": rng.choice(["absolute", "relative",
                                                   "relative", "dotdot",
-                                                  "dot", "symlink"])})
+                                                  "dot", "symlink",
+                                                  "tilde"])})
             elif kind == "version":
                 ops.append({"op": "version", "delta": rng.choice(
                     ["same", "patch-1", "patch+1", "patch+3", "patch*10",
@@ -158,6 +159,7 @@ def run_case(case):
     fs = fslayer.FS(scratch, random.Random(case["sched_seed"] ^ 0xF5))
     fs.keep_log = False
     cwd = os.getcwd()
+    home = os.environ.get("HOME")
     nreloc = 0
     try:
         dsgen.META_VALUES[:3] = hist["shard_meta"]
@@ -208,6 +210,8 @@ def run_case(case):
                            key={"engine": "E-sess"})
     finally:
         os.chdir(cwd)
+        if home is not None:
+            os.environ["HOME"] = home
         dsgen.META_VALUES[:] = saved_meta
         shutil.rmtree(scratch, ignore_errors=True)
     stats["fs_effects"] += fs.n_effects
@@ -247,6 +251,10 @@ def relocate(hr, op, scratch, n, probes):
         os.makedirs(side, exist_ok=True)
         os.chdir(side)
         path = os.path.join("..", op["name"])
+    elif access == "tilde":
+        # "~/name" with the home directory pointing at the new parent
+        os.environ["HOME"] = new_parent
+        path = "~/" + op["name"]
     else:  # through a symlinked parent directory
         link = os.path.join(scratch, "link%d" % n)
         os.symlink(new_parent, link)
